@@ -31,7 +31,9 @@ def run_one(sid, tier="quick", seeds=(1,)):
     scratch = tempfile.mkdtemp(prefix=f"seedev_{sid}_", dir="/tmp")
     res = dict(seed_id=sid, properties=meta["properties"], runs=[])
     try:
-        r = sh("git", "-C", "/repo", "worktree", "add", "--detach", wt, "HEAD")
+        base = os.environ.get("SEED_BASE") or meta.get("base") or "HEAD"   # superseded changes name the commit they were seeded on
+        res["base"] = sh("git", "-C", "/repo", "rev-parse", "--short", base).stdout.strip()
+        r = sh("git", "-C", "/repo", "worktree", "add", "--detach", wt, base)
         if r.returncode:
             raise SystemExit(r.stderr)
         r = sh("git", "-C", wt, "apply", os.path.join(d, "patch.diff"))
